@@ -983,7 +983,7 @@ def attach_projections(draw, case, maxfun=25):
     n = case["n"]
     z = [float(v) for v in case["x0"]]
     mag = max(1.0, max(abs(v) for v in z)) * 0.5
-    case["proj"] = draw(draw_sets(n, z, mag, nmin=1, nmax=2, touching=True))
+    case["proj"] = draw(draw_sets(n, z, mag, nmin=1, nmax=3, touching=True))
     case["scaling"] = False
     case["lower"] = case["upper"] = None
     case.pop("reg", None)
